@@ -68,6 +68,10 @@ func runSync(c *Case) ([]Obs, any) {
 	}
 	f := newFlowNode(store, bu, tu, 2000, start)
 	ctx := f.ctx
+	if fa := int(cfgInt(c, "fail_at", 0)); fa > 0 {
+		store.FailAt = store.OpCount() + fa // the j-th storage operation after start-up fails once
+	}
+	bootOps := store.OpCount()
 	f.node.VerifState().MarkConnected()
 
 	digest := func() []int64 {
@@ -239,7 +243,12 @@ func runSync(c *Case) ([]Obs, any) {
 			case "restartnode":
 				f.node.VerifBlocks().Save(ctx)
 				f.node.VerifTxs().Save(ctx)
-				f.boot(start)
+				if err := f.bootErr(start); err != nil {
+					// start-up failed (injected fault): the operator starts the node again
+					f.boot(start)
+					f.node.VerifState().MarkConnected()
+					return Obs{ERR}
+				}
 				f.node.VerifState().MarkConnected()
 				return Obs{OK}
 			case "ublock":
@@ -290,5 +299,65 @@ func runSync(c *Case) ([]Obs, any) {
 		}
 		result = append(result, obs)
 	}
-	return result, nil
+
+	// crash / fault analysis (C10)
+	extra := map[string]any{"storage_ops": store.OpCount() - bootOps, "mutations": len(store.Log), "fault_hit": store.Failed}
+	loadChain := func(img *VStore) []int64 {
+		g := &flowNode{ctx: f.ctx, store: img, bu: bu, tu: tu, cfg: testCfg{2000}}
+		var res []int64
+		func() {
+			defer func() {
+				if r := recover(); r != nil {
+					res = []int64{PANIC}
+				}
+			}()
+			if err := g.bootErr(start); err != nil {
+				res = []int64{ERR}
+				return
+			}
+			repo := g.node.VerifBlocks()
+			res = []int64{OK}
+			var prevHash *bitcoin.Hash32
+			linked := int64(1)
+			var ids []int64
+			for h := 0; h <= repo.LastHeight(); h++ {
+				hdr, err := repo.Header(g.ctx, h)
+				if err != nil {
+					res = []int64{ERR, int64(h)}
+					return
+				}
+				hash := hdr.BlockHash()
+				if h > 0 && !hdr.PrevBlock.Equal(prevHash) {
+					linked = 0
+				}
+				hh, ok := repo.Height(hash)
+				if !ok || hh != h {
+					linked = 0
+				}
+				ids = append(ids, bu.ID(hash))
+				prevHash = hash
+			}
+			res = append(res, linked)
+			res = append(res, ids...)
+		}()
+		return res
+	}
+	if cfgInt(c, "crash", 0) != 0 {
+		var images [][]int64
+		for i := 0; i <= len(store.Log); i++ {
+			images = append(images, loadChain(ImageOf(store.Log, i, store.RmMissingErr)))
+		}
+		extra["images"] = images
+		var keys []string
+		for _, m := range store.Log {
+			keys = append(keys, m.Kind+":"+m.Key)
+		}
+		extra["log"] = keys
+	}
+	if store.FailAt != 0 {
+		// after the fault: what a restart on the surviving storage loads
+		img := store.Clone()
+		extra["after_fault_load"] = loadChain(img)
+	}
+	return result, extra
 }
